@@ -147,3 +147,1195 @@ Definition cx_hs : list (str * str) :=
 Theorem validate_complete_counterexample :
   response_accepts 101 cx_hs [] [[]] = true /\ fst (hs_validate cx_hs [] [[]]) = false.
 Proof. split; vm_compute; reflexivity. Qed.
+
+(* ---- (1c), (1d): what handshake() reports ---- *)
+Theorem handshake_ok_only_if : forall x req key subs st hs sub x',
+  handshake x req key subs = (Ok (HsOk st hs sub), x') ->
+  st = 101 /\ response_accepts 101 hs key subs = true.
+Proof.
+  intros x req key subs st hs sub x' H. unfold handshake in H.
+  destruct (read_headers (xlog x (IWrite req))) as [[h|e] x2]; [|discriminate H].
+  set (st0 := match h_status h with Some z => z | None => -1 end) in *.
+  destruct (existsb (Z.eqb st0) SUCCESS_STATUSES) eqn:Es; cbn [negb orb] in H.
+  2:{ destruct (body_read (h_headers h) x2) as [[u|e] x3]; discriminate H. }
+  destruct (match h_status h with None => true | _ => false end).
+  { destruct (body_read (h_headers h) x2) as [[u|e] x3]; discriminate H. }
+  destruct (existsb (Z.eqb st0) SUPPORTED_REDIRECT_STATUSES) eqn:Er; [discriminate H|].
+  destruct (hs_validate (h_headers h) key subs) as [[|] sub0] eqn:Ev; [|discriminate H].
+  inversion H; subst. split.
+  - apply success_not_redirect; assumption.
+  - apply validate_sound in Ev. tauto.
+Qed.
+
+Theorem handshake_redirect_is_not_ok : forall x req key subs st hs x',
+  handshake x req key subs = (Ok (HsRedirect st hs), x') ->
+  In st SUPPORTED_REDIRECT_STATUSES /\ st <> 101.
+Proof.
+  intros x req key subs st hs x' H. unfold handshake in H.
+  destruct (read_headers (xlog x (IWrite req))) as [[h|e] x2]; [|discriminate H].
+  set (st0 := match h_status h with Some z => z | None => -1 end) in *.
+  destruct (negb (existsb (Z.eqb st0) SUCCESS_STATUSES)
+            || match h_status h with None => true | _ => false end).
+  { destruct (body_read (h_headers h) x2) as [[u|e] x3]; discriminate H. }
+  destruct (existsb (Z.eqb st0) SUPPORTED_REDIRECT_STATUSES) eqn:Er.
+  - inversion H; subst. split.
+    + apply existsb_exists in Er. destruct Er as [y [Hy Ey]].
+      apply Z.eqb_eq in Ey. subst y. exact Hy.
+    + intros E. rewrite E in Er. rewrite redirect_not_101 in Er. discriminate Er.
+  - destruct (hs_validate (h_headers h) key subs) as [[|] sub0]; discriminate H.
+Qed.
+
+(* ---- (1e), (1f): the transport log ---- *)
+Definition reads (tail : list io) : Prop :=
+  Forall (fun e => exists n, e = IRead n /\ n <= 16384) tail.
+(* [x'] is [x] after some reads, each of at most 16384 bytes *)
+Definition ext (x x' : xport) : Prop := exists tail, iolog x' = iolog x ++ tail /\ reads tail.
+
+Lemma ext_refl x : ext x x.
+Proof. exists []. rewrite app_nil_r. split; [reflexivity|constructor]. Qed.
+Lemma ext_trans x y z : ext x y -> ext y z -> ext x z.
+Proof.
+  intros [t1 [E1 R1]] [t2 [E2 R2]]. exists (t1 ++ t2). rewrite E2, E1, app_assoc.
+  split; [reflexivity|]. apply Forall_app; split; assumption.
+Qed.
+
+Lemma sock_recv_ext n x r x' : n <= 16384 -> sock_recv n x = (r, x') -> ext x x'.
+Proof.
+  intros Hn H. exists [IRead n]. split; [|repeat constructor; eauto].
+  unfold sock_recv in H.
+  destruct (inbox x) as [|[bs| |] rest];
+    [ | destruct (zlen bs =? 0); [|destruct (zlen bs <=? n)] | | ];
+    inversion H; reflexivity.
+Qed.
+
+Lemma recv_line_ext : forall fuel acc x r x', recv_line fuel acc x = (r, x') -> ext x x'.
+Proof.
+  induction fuel as [|k IH]; intros acc x r x' H; cbn [recv_line] in H.
+  - inversion H; apply ext_refl.
+  - destruct (sock_recv 1 x) as [[c|e] x1] eqn:E.
+    + apply sock_recv_ext in E; [|lia].
+      match type of H with context [if ?b then _ else _] => destruct b end.
+      * inversion H; subst; assumption.
+      * eapply ext_trans; [exact E|]. eapply IH; exact H.
+    + inversion H; subst. eapply sock_recv_ext; [|exact E]. lia.
+Qed.
+
+Lemma read_headers_loop_ext : forall fuel h x r x',
+  read_headers_loop fuel h x = (r, x') -> ext x x'.
+Proof.
+  induction fuel as [|k IH]; intros h x r x' H; cbn [read_headers_loop] in H.
+  - inversion H; apply ext_refl.
+  - destruct (recv_line _ [] x) as [[raw|e] x1] eqn:E; apply recv_line_ext in E.
+    2:{ inversion H; subst; assumption. }
+    eapply ext_trans; [exact E|]. clear E.
+    repeat match type of H with
+    | read_headers_loop _ _ _ = _ => fail 1
+    | (_, _) = (_, _) => fail 1
+    | context [if ?b then _ else _] => destruct b
+    | context [match ?d with _ => _ end] => destruct d
+    end;
+    first [ inversion H; subst; apply ext_refl | eapply IH; exact H ].
+Qed.
+
+Lemma read_headers_ext x r x' : read_headers x = (r, x') -> ext x x'.
+Proof. unfold read_headers. apply read_headers_loop_ext. Qed.
+
+Lemma body_read_ext hs x r x' : body_read hs x = (r, x') -> ext x x'.
+Proof.
+  unfold body_read. intros H.
+  destruct (alist_get S_CONTENT_LENGTH hs) as [[|c l]|]; try (inversion H; apply ext_refl).
+  destruct (py_int (c :: l)) as [n|]; try (inversion H; apply ext_refl).
+  destruct (0 <? n); try (inversion H; apply ext_refl).
+  destruct (sock_recv (Z.min n 16384) x) as [[b|e] x1] eqn:E;
+    apply sock_recv_ext in E; try lia.
+  - inversion H; subst; assumption.
+  - destruct e; inversion H; subst; assumption.
+Qed.
+
+Lemma handshake_ext x req key subs r x' :
+  handshake x req key subs = (r, x') -> ext (xlog x (IWrite req)) x'.
+Proof.
+  intros H. unfold handshake in H.
+  destruct (read_headers (xlog x (IWrite req))) as [[h|e] x2] eqn:E;
+    apply read_headers_ext in E.
+  2:{ inversion H; subst; assumption. }
+  match type of H with context [if ?b then _ else _] => destruct b end.
+  - destruct (body_read (h_headers h) x2) as [[u|e] x3] eqn:B; apply body_read_ext in B;
+      inversion H; subst; eapply ext_trans; eassumption.
+  - match type of H with context [if ?b then _ else _] => destruct b end.
+    + inversion H; subst; assumption.
+    + destruct (hs_validate (h_headers h) key subs) as [[|] sub0]; inversion H; subst; assumption.
+Qed.
+
+Lemma handshake_log x req key subs r x' :
+  handshake x req key subs = (r, x') ->
+  exists tail, iolog x' = iolog x ++ IWrite req :: tail /\ reads tail.
+Proof.
+  intros H. apply handshake_ext in H. destruct H as [tail [E R]].
+  exists tail. split; [|exact R]. rewrite E. unfold xlog. cbn [iolog].
+  rewrite <- app_assoc. reflexivity.
+Qed.
+
+Theorem handshake_writes_once : forall x req key subs r x',
+  handshake x req key subs = (r, x') ->
+  exists tail, iolog x' = iolog x ++ IWrite req :: tail /\
+               forall e, In e tail -> exists n, e = IRead n.
+Proof.
+  intros x req key subs r x' H. apply handshake_log in H. destruct H as [tail [E R]].
+  exists tail. split; [exact E|]. intros e He.
+  unfold reads in R. rewrite Forall_forall in R. destruct (R e He) as [n [Hn _]]. eauto.
+Qed.
+
+Theorem handshake_reads_bounded : forall x req key subs r x',
+  handshake x req key subs = (r, x') ->
+  forall n, In (IRead n) (iolog x') -> In (IRead n) (iolog x) \/ n <= 16384.
+Proof.
+  intros x req key subs r x' H n Hin. apply handshake_log in H. destruct H as [tail [E R]].
+  rewrite E in Hin. apply in_app_or in Hin. destruct Hin as [Hin|[Hin|Hin]].
+  - left; exact Hin.
+  - discriminate Hin.
+  - right. unfold reads in R. rewrite Forall_forall in R.
+    destruct (R _ Hin) as [m [Hm Hb]]. inversion Hm; subst; exact Hb.
+Qed.
+
+(* ================================================================================== *)
+(* Part 2 : the request (C10)                                                          *)
+(* ================================================================================== *)
+
+(* ---- the request lines, piece by piece ---- *)
+Definition hostport (host : str) (port : Z) : str :=
+  if host_port_omitted port then pack_hostname host else pack_hostname host ++ [58] ++ str_of_Z port.
+Definition host_val (host : str) (port : Z) (o : hsopts) : str :=
+  if opt_truthy (o_host o) then opt_get (o_host o) else hostport host port.
+Definition origin_vals (scheme host : str) (port : Z) (o : hsopts) : list str :=
+  if o_suppress_origin o then []
+  else match o_origin o with
+       | Some (Some og) => [og]
+       | _ => if str_eqb scheme S_WSS then [S_HTTPS ++ hostport host port]
+              else [S_HTTP ++ hostport host port]
+       end.
+Definition own_key (o : hsopts) : bool :=
+  negb (hdr_truthy (o_header o)) || negb (hdr_has S_KEY (o_header o)).
+Definition own_version (o : hsopts) : bool :=
+  negb (hdr_truthy (o_header o)) || negb (hdr_has S_VERSION (o_header o)).
+Definition key_used (o : hsopts) (fresh_key : str) : str :=
+  if own_key o then fresh_key
+  else match o_header o with
+       | HDict d => match alist_get S_KEY d with Some (Some k) => k | _ => [] end
+       | _ => []
+       end.
+Definition conn_val (o : hsopts) : str :=
+  if opt_truthy (o_connection o) then opt_get (o_connection o) else [85; 112; 103; 114; 97; 100; 101].
+Definition proto_vals (o : hsopts) : list str :=
+  match o_subprotocols o with [] => [] | sp => [join [44] sp] end.
+Definition custom_lines (h : hdropt) : list str :=
+  match h with
+  | HNone => []
+  | HList l => l
+  | HDict d => flat_map (fun kv => match snd kv with Some v => [fst kv ++ S_COLON_SP ++ v] | None => [] end) d
+  end.
+Definition cookie_val (server_cookie : str) (o : hsopts) : str :=
+  join [59; 32] (filter (fun c => negb (Nat.eqb (length c) 0)) [server_cookie; opt_get (o_cookie o)]).
+Definition cookie_vals (server_cookie : str) (o : hsopts) : list str :=
+  match cookie_val server_cookie o with [] => [] | c => [c] end.
+
+Definition header_lines (scheme host : str) (port : Z) (o : hsopts) (fresh_key server_cookie : str)
+    : list str :=
+  [S_UPGRADE_WS] ++ [S_HOST ++ host_val host port o]
+  ++ map (app S_ORIGIN) (origin_vals scheme host port o)
+  ++ (if own_key o then [S_KEY ++ S_COLON_SP ++ fresh_key] else [])
+  ++ (if own_version o then [S_VERSION ++ S_COLON_SP ++ str_of_Z VERSION] else [])
+  ++ [S_CONN ++ conn_val o]
+  ++ map (app S_PROTO) (proto_vals o)
+  ++ custom_lines (o_header o)
+  ++ map (app S_COOKIE) (cookie_vals server_cookie o).
+
+Lemma app_if1 {A} (c : bool) (l a : list A) : (if c then l ++ a else l) = l ++ (if c then a else []).
+Proof. destruct c; [reflexivity|now rewrite app_nil_r]. Qed.
+Lemma app_if2 {A} (c : bool) (l a b : list A) :
+  (if c then l ++ a else l ++ b) = l ++ (if c then a else b).
+Proof. destruct c; reflexivity. Qed.
+Lemma app_if3 {A} (c : bool) (l b : list A) : (if c then l else l ++ b) = l ++ (if c then [] else b).
+Proof. destruct c; [now rewrite app_nil_r|reflexivity]. Qed.
+
+Lemma origin_shape (l2 : list str) scheme host port o :
+  (if o_suppress_origin o then l2
+   else match o_origin o with
+        | Some (Some og) => l2 ++ [S_ORIGIN ++ og]
+        | _ => if str_eqb scheme S_WSS then l2 ++ [S_ORIGIN ++ S_HTTPS ++ hostport host port]
+               else l2 ++ [S_ORIGIN ++ S_HTTP ++ hostport host port]
+        end) = l2 ++ map (app S_ORIGIN) (origin_vals scheme host port o).
+Proof.
+  unfold origin_vals. destruct (o_suppress_origin o); [now rewrite app_nil_r|].
+  destruct (o_origin o) as [[og|]|]; try reflexivity; destruct (str_eqb scheme S_WSS); reflexivity.
+Qed.
+
+Lemma conn_shape (l5 : list str) o :
+  (if opt_truthy (o_connection o) then l5 ++ [S_CONN ++ opt_get (o_connection o)]
+   else l5 ++ [S_CONN_UPGRADE]) = l5 ++ [S_CONN ++ conn_val o].
+Proof. unfold conn_val. destruct (opt_truthy (o_connection o)); reflexivity. Qed.
+
+Lemma proto_shape (l6 : list str) o :
+  match o_subprotocols o with [] => l6 | sp => l6 ++ [S_PROTO ++ join [44] sp] end
+  = l6 ++ map (app S_PROTO) (proto_vals o).
+Proof. unfold proto_vals. destruct (o_subprotocols o); [now rewrite app_nil_r|reflexivity]. Qed.
+
+Lemma custom_shape (l7 : list str) h :
+  match h with
+  | HList l => if hdr_truthy h then l7 ++ l else l7
+  | HDict d => l7 ++ flat_map (fun kv => match snd kv with Some v => [fst kv ++ S_COLON_SP ++ v] | None => [] end) d
+  | HNone => l7
+  end = l7 ++ custom_lines h.
+Proof.
+  destruct h as [|l|d]; cbn [custom_lines]; [now rewrite app_nil_r| |reflexivity].
+  destruct l; [now rewrite app_nil_r|reflexivity].
+Qed.
+
+Lemma cookie_shape (l8 : list str) sc o :
+  match cookie_val sc o with [] => l8 | _ => l8 ++ [S_COOKIE ++ cookie_val sc o] end
+  = l8 ++ map (app S_COOKIE) (cookie_vals sc o).
+Proof. unfold cookie_vals. destruct (cookie_val sc o); [now rewrite app_nil_r|reflexivity]. Qed.
+
+(* everything after the key decision *)
+Lemma ghh_tail (l4 : list str) o sc (key : str) lines key' :
+  (let l5 := if negb (hdr_truthy (o_header o)) || negb (hdr_has S_VERSION (o_header o))
+              then l4 ++ [S_VERSION ++ S_COLON_SP ++ str_of_Z VERSION] else l4 in
+   let l6 := if opt_truthy (o_connection o) then l5 ++ [S_CONN ++ opt_get (o_connection o)] else l5 ++ [S_CONN_UPGRADE] in
+   let l7 := match o_subprotocols o with [] => l6 | sp => l6 ++ [S_PROTO ++ join [44] sp] end in
+   let l8 := match o_header o with
+             | HList l => if hdr_truthy (o_header o) then l7 ++ l else l7
+             | HDict d => l7 ++ flat_map (fun kv => match snd kv with Some v => [fst kv ++ S_COLON_SP ++ v] | None => [] end) d
+             | HNone => l7
+             end in
+   let cookie := join [59; 32] (filter (fun c => negb (Nat.eqb (length c) 0)) [sc; opt_get (o_cookie o)]) in
+   let l9 := match cookie with [] => l8 | _ => l8 ++ [S_COOKIE ++ cookie] end in
+   @Ok (list str * str) (l9 ++ [[]; []], key)) = Ok (lines, key') ->
+  lines = l4
+    ++ (if own_version o then [S_VERSION ++ S_COLON_SP ++ str_of_Z VERSION] else [])
+    ++ [S_CONN ++ conn_val o]
+    ++ map (app S_PROTO) (proto_vals o)
+    ++ custom_lines (o_header o)
+    ++ map (app S_COOKIE) (cookie_vals sc o) ++ [[]; []]
+  /\ key' = key.
+Proof.
+  cbv zeta. fold (cookie_val sc o). fold (own_version o).
+  rewrite app_if1, conn_shape, proto_shape, custom_shape, cookie_shape.
+  intros H. inversion H; subst. split; [|reflexivity].
+  rewrite <- !app_assoc. reflexivity.
+Qed.
+
+Lemma ghh_shape resource scheme host port o fk sc lines key :
+  get_handshake_headers resource scheme host port o fk sc = Ok (lines, key) ->
+  lines = (S_GET ++ resource ++ S_HTTP11) :: header_lines scheme host port o fk sc ++ [[]; []]
+  /\ key = key_used o fk.
+Proof.
+  unfold get_handshake_headers. cbv zeta.
+  fold (hostport host port). fold (own_key o).
+  rewrite origin_shape. unfold header_lines, key_used.
+  destruct (own_key o) eqn:Eo.
+  - intros H. apply ghh_tail in H. destruct H as [-> ->]. split; [|reflexivity].
+    repeat first [rewrite <- !app_assoc | progress cbn [app]]. reflexivity.
+  - intros H.
+    match type of H with (match ?r with _ => _ end) = _ =>
+      destruct r as [[l4 k]|e] eqn:Ek; [|discriminate H] end.
+    apply ghh_tail in H. destruct H as [-> ->].
+    assert (l4 = [S_GET ++ resource ++ S_HTTP11; S_UPGRADE_WS]
+                 ++ [S_HOST ++ (if opt_truthy (o_host o) then opt_get (o_host o) else hostport host port)]
+                 ++ map (app S_ORIGIN) (origin_vals scheme host port o)
+            /\ k = match o_header o with
+                   | HDict d => match alist_get S_KEY d with Some (Some k) => k | _ => [] end
+                   | _ => []
+                   end) as [-> ->].
+    { destruct (o_header o) as [|l|d]; try discriminate.
+      destruct (alist_get S_KEY d) as [[k0|]|]; try discriminate.
+      inversion Ek; subst. split; [|reflexivity].
+      repeat first [rewrite <- !app_assoc | progress cbn [app]]. reflexivity. }
+    split; [|reflexivity].
+    repeat first [rewrite <- !app_assoc | progress cbn [app]]. reflexivity.
+Qed.
+
+(* ---- strings ---- *)
+Definition ncl (s : str) : Prop := no_crlf s = true.
+
+Lemma contains_char_app c a b : contains_char c (a ++ b) = contains_char c a || contains_char c b.
+Proof. induction a as [|x a IH]; cbn [app contains_char]; [reflexivity|]. now rewrite IH, orb_assoc. Qed.
+
+Lemma no_crlf_app a b : no_crlf (a ++ b) = no_crlf a && no_crlf b.
+Proof.
+  unfold no_crlf. rewrite !contains_char_app.
+  destruct (contains_char 13 a), (contains_char 13 b), (contains_char 10 a), (contains_char 10 b);
+    reflexivity.
+Qed.
+Lemma ncl_app a b : ncl a -> ncl b -> ncl (a ++ b).
+Proof. unfold ncl. intros Ha Hb. now rewrite no_crlf_app, Ha, Hb. Qed.
+Lemma ncl_no13 s : ncl s -> contains_char 13 s = false.
+Proof. unfold ncl, no_crlf. intros H. apply andb_true_iff in H. destruct H as [H _]. now apply negb_true_iff in H. Qed.
+
+Lemma ncl_join sep ls : ncl sep -> Forall ncl ls -> ncl (join sep ls).
+Proof.
+  intros Hs. induction ls as [|x ls IH]; intros HF; [reflexivity|].
+  inversion HF as [|? ? Hx Hr]; subst. destruct ls as [|y r]; [exact Hx|].
+  change (join sep (x :: y :: r)) with (x ++ sep ++ join sep (y :: r)).
+  apply ncl_app; [exact Hx|]. apply ncl_app; [exact Hs|]. apply IH; exact Hr.
+Qed.
+
+Lemma forall_no_char (P : Z -> Prop) c s : Forall P s -> ~ P c -> contains_char c s = false.
+Proof.
+  intros HF Hc. induction HF as [|x s Hx _ IH]; [reflexivity|]. cbn [contains_char].
+  rewrite IH, orb_false_r. apply Z.eqb_neq. intros ->. exact (Hc Hx).
+Qed.
+
+Lemma digits_of_pos_ok : forall fuel n acc, 0 <= n ->
+  Forall (fun c => 48 <= c <= 57) acc -> Forall (fun c => 48 <= c <= 57) (digits_of_pos fuel n acc).
+Proof.
+  induction fuel as [|k IH]; intros n acc Hn Ha; cbn [digits_of_pos]; [exact Ha|].
+  destruct (n <? 10) eqn:E.
+  - constructor; [lia|exact Ha].
+  - apply IH; [apply Z.div_pos; lia|]. constructor; [|exact Ha].
+    pose proof (Z.mod_pos_bound n 10). lia.
+Qed.
+Lemma str_of_Z_chars p : Forall (fun c => c = 45 \/ 48 <= c <= 57) (str_of_Z p).
+Proof.
+  unfold str_of_Z. destruct (p <? 0) eqn:E.
+  - constructor; [now left|]. eapply Forall_impl; [|apply digits_of_pos_ok; [lia|constructor]].
+    intros; now right.
+  - eapply Forall_impl; [|apply digits_of_pos_ok; [lia|constructor]]. intros; now right.
+Qed.
+Lemma str_of_Z_ncl p : ncl (str_of_Z p).
+Proof.
+  unfold ncl, no_crlf.
+  rewrite (forall_no_char _ 13 _ (str_of_Z_chars p)) by lia.
+  rewrite (forall_no_char _ 10 _ (str_of_Z_chars p)) by lia. reflexivity.
+Qed.
+
+(* str.strip() *)
+Lemma strip_sp v : strip (32 :: v) = strip v.
+Proof. reflexivity. Qed.
+Definition trimmedb (s : str) : bool :=
+  match s with [] => true | c :: _ => negb (is_space c) && negb (is_space (last s 0)) end.
+Lemma strip_trimmed s : trimmedb s = true -> strip s = s.
+Proof.
+  destruct s as [|c r]; [reflexivity|]. unfold trimmedb. intros H.
+  apply andb_true_iff in H. destruct H as [H1 H2]. apply negb_true_iff in H1, H2.
+  unfold strip.
+  assert (L : lstrip (c :: r) = c :: r) by (cbn [lstrip]; now rewrite H1).
+  rewrite L. clear L H1. unfold rstrip.
+  assert (E : c :: r = removelast (c :: r) ++ [last (c :: r) 0])
+    by (apply app_removelast_last; discriminate).
+  remember (c :: r) as s eqn:Es. clear Es.
+  rewrite E at 1. rewrite rev_app_distr. cbn [rev app lstrip]. rewrite H2.
+  cbn [rev]. rewrite rev_involutive. symmetry. exact E.
+Qed.
+
+(* ---- splitting at CRLF ---- *)
+Lemma split_crlf_aux_other c r cur : c <> 13 -> split_crlf_aux (c :: r) cur = split_crlf_aux r (c :: cur).
+Proof.
+  intros Hc. destruct c as [|p|p]; try reflexivity.
+  do 4 (try (destruct p as [p|p|]; try reflexivity)).
+  exfalso. apply Hc. reflexivity.
+Qed.
+Lemma split_crlf_aux_crlf r cur : split_crlf_aux (13 :: 10 :: r) cur = rev cur :: split_crlf_aux r [].
+Proof. reflexivity. Qed.
+
+Lemma split_crlf_aux_app : forall l rest cur, contains_char 13 l = false ->
+  split_crlf_aux (l ++ rest) cur = split_crlf_aux rest (rev l ++ cur).
+Proof.
+  induction l as [|c l IH]; intros rest cur H; [reflexivity|].
+  cbn [contains_char] in H. apply orb_false_iff in H. destruct H as [H1 H2].
+  rewrite <- app_comm_cons, split_crlf_aux_other by (apply Z.eqb_neq; exact H1).
+  rewrite IH by exact H2. cbn [rev]. rewrite <- app_assoc. reflexivity.
+Qed.
+
+Lemma split_crlf_aux_join : forall ls x cur,
+  Forall (fun l => contains_char 13 l = false) (x :: ls) ->
+  split_crlf_aux (join CRLF (x :: ls)) cur = rev (rev x ++ cur) :: ls.
+Proof.
+  induction ls as [|y ls IH]; intros x cur HF; inversion HF as [|? ? Hx Hr]; subst.
+  - cbn [join]. rewrite <- (app_nil_r x) at 1. rewrite split_crlf_aux_app by exact Hx. reflexivity.
+  - change (join CRLF (x :: y :: ls)) with (x ++ 13 :: 10 :: join CRLF (y :: ls)).
+    rewrite split_crlf_aux_app by exact Hx. rewrite split_crlf_aux_crlf.
+    rewrite IH by exact Hr. rewrite app_nil_r, rev_involutive. reflexivity.
+Qed.
+
+(* the general statement: joining CR/LF-free lines with CRLF and splitting at CRLF is the identity *)
+Theorem split_crlf_join : forall ls, ls <> [] -> Forall (fun l => no_crlf l = true) ls ->
+  split_crlf (join CRLF ls) = ls.
+Proof.
+  intros ls Hne HF. destruct ls as [|x ls]; [congruence|]. unfold split_crlf.
+  rewrite split_crlf_aux_join.
+  - rewrite app_nil_r, rev_involutive. reflexivity.
+  - eapply Forall_impl; [|exact HF]. intros a Ha. apply ncl_no13. exact Ha.
+Qed.
+
+(* ---- splitting at one character ---- *)
+Lemma split_all_aux_app sep : forall l rest cur, contains_char sep l = false ->
+  split_all_aux sep (l ++ rest) cur = split_all_aux sep rest (rev l ++ cur).
+Proof.
+  induction l as [|c l IH]; intros rest cur H; [reflexivity|].
+  cbn [contains_char] in H. apply orb_false_iff in H. destruct H as [H1 H2].
+  cbn [app split_all_aux]. rewrite H1, IH by exact H2. cbn [rev]. rewrite <- app_assoc. reflexivity.
+Qed.
+Lemma split_all_aux_sep sep r cur : split_all_aux sep (sep :: r) cur = rev cur :: split_all_aux sep r [].
+Proof. cbn [split_all_aux]. now rewrite Z.eqb_refl. Qed.
+
+Lemma reqline_split resource : contains_char 32 resource = false ->
+  split_all 32 (S_GET ++ resource ++ S_HTTP11) = [S_GET_; resource; S_HTTP11_].
+Proof.
+  intros H. unfold split_all.
+  change (S_GET ++ resource ++ S_HTTP11) with (S_GET_ ++ 32 :: resource ++ 32 :: S_HTTP11_ ++ []).
+  rewrite split_all_aux_app by reflexivity. rewrite split_all_aux_sep.
+  rewrite split_all_aux_app by exact H. rewrite split_all_aux_sep.
+  rewrite split_all_aux_app by reflexivity. cbn [split_all_aux].
+  rewrite !app_nil_r, !rev_involutive. reflexivity.
+Qed.
+
+Lemma split_once_app sep : forall n r, contains_char sep n = false ->
+  split_once sep (n ++ sep :: r) = Some (n, r).
+Proof.
+  induction n as [|c n IH]; intros r H; cbn [app split_once].
+  - now rewrite Z.eqb_refl.
+  - cbn [contains_char] in H. apply orb_false_iff in H. destruct H as [H1 H2].
+    now rewrite H1, IH by exact H2.
+Qed.
+
+Lemma tchar_not c n : tchar c = false -> forallb tchar n = true -> contains_char c n = false.
+Proof.
+  intros Hc. induction n as [|x n IH]; cbn [forallb contains_char]; intros H; [reflexivity|].
+  apply andb_true_iff in H. destruct H as [Hx Hn]. rewrite IH by exact Hn. rewrite orb_false_r.
+  apply Z.eqb_neq. intros ->. congruence.
+Qed.
+Lemma token_ncl n : is_token n = true -> ncl n.
+Proof.
+  unfold is_token. intros H. apply andb_true_iff in H. destruct H as [_ H].
+  unfold ncl, no_crlf. now rewrite !tchar_not by (reflexivity || exact H).
+Qed.
+
+(* a rendered header line parses back to its name and (stripped) value *)
+Lemma parse_nv n v : is_token n = true -> parse_header_line (n ++ S_COLON_SP ++ v) = Some (n, strip v).
+Proof.
+  intros H. unfold parse_header_line.
+  change (n ++ S_COLON_SP ++ v) with (n ++ 58 :: 32 :: v).
+  rewrite split_once_app.
+  - rewrite H, strip_sp. reflexivity.
+  - unfold is_token in H. apply andb_true_iff in H. destruct H as [_ H].
+    apply tchar_not; [reflexivity|exact H].
+Qed.
+
+Lemma parse_lines_app a b x y :
+  parse_header_lines a = Some x -> parse_header_lines b = Some y ->
+  parse_header_lines (a ++ b) = Some (x ++ y).
+Proof.
+  revert x. induction a as [|l a IH]; intros x Ha Hb; cbn [app parse_header_lines] in *.
+  - inversion Ha; subst. exact Hb.
+  - destruct (parse_header_line l) as [h|]; [|discriminate Ha].
+    destruct (parse_header_lines a) as [t|]; [|discriminate Ha].
+    inversion Ha; subst. now rewrite (IH t eq_refl Hb).
+Qed.
+
+Lemma parse_lines_nonempty : forall ls hs, parse_header_lines ls = Some hs ->
+  forall l, In l ls -> l <> [].
+Proof.
+  induction ls as [|x ls IH]; intros hs H l Hin; [contradiction|].
+  cbn [parse_header_lines] in H.
+  destruct (parse_header_line x) as [h|] eqn:E; [|discriminate H].
+  destruct (parse_header_lines ls) as [t|] eqn:E2; [|discriminate H].
+  destruct Hin as [->|Hin]; [|eapply IH; eauto].
+  intros ->. discriminate E.
+Qed.
+
+Lemma parse_request_intro resource hdrs hs :
+  resource <> [] -> contains_char 32 resource = false -> ncl resource ->
+  Forall ncl hdrs -> parse_header_lines hdrs = Some hs ->
+  parse_request (join CRLF ((S_GET ++ resource ++ S_HTTP11) :: hdrs ++ [[]; []])) = Some (resource, hs).
+Proof.
+  intros Hne Hsp Hr Hh Hp. unfold parse_request.
+  rewrite split_crlf_join.
+  2:{ discriminate. }
+  2:{ constructor.
+      - apply ncl_app; [reflexivity|]. apply ncl_app; [exact Hr|reflexivity].
+      - apply Forall_app. split; [exact Hh|]. repeat constructor. }
+  rewrite reqline_split by exact Hsp. cbv beta iota.
+  change (str_eqb S_GET_ S_GET_) with true. change (str_eqb S_HTTP11_ S_HTTP11_) with true.
+  destruct resource as [|c0 r0]; [congruence|]. cbn [length Nat.eqb negb andb].
+  rewrite rev_app_distr. cbn [rev app]. cbv beta iota.
+  assert (F : forallb (fun l : list Z => negb (Nat.eqb (length l) 0)) (rev hdrs) = true).
+  { apply forallb_forall. intros l Hin. apply in_rev in Hin.
+    pose proof (parse_lines_nonempty _ _ Hp l Hin). destruct l; [congruence|reflexivity]. }
+  rewrite F, rev_involutive, Hp. reflexivity.
+Qed.
+
+(* ---- well-formed inputs ---- *)
+(* [ncl s] : s contains neither CR nor LF.
+   - the resource is non-empty, without space, CR, LF ;
+   - host, host= option, origin, connection, cookies, subprotocols, the fresh key: no CR, LF ;
+   - a custom header list: every line is CR/LF-free and is a header line ("token ':' anything") ;
+   - a custom header dict: every item with a non-None value has a token name and a CR/LF-free value
+     (items whose value is None are unconstrained: they are skipped). *)
+Record opts_ok (resource host : str) (o : hsopts) (fresh_key server_cookie : str) : Prop := {
+  ok_resource_nonempty : resource <> [];
+  ok_resource_nosp : contains_char 32 resource = false;
+  ok_resource : ncl resource;
+  ok_host : ncl host;
+  ok_o_host : forall h, o_host o = Some h -> ncl h;
+  ok_origin : forall og, o_origin o = Some (Some og) -> ncl og;
+  ok_connection : forall c, o_connection o = Some c -> ncl c;
+  ok_cookie : forall c, o_cookie o = Some c -> ncl c;
+  ok_server_cookie : ncl server_cookie;
+  ok_subprotocols : Forall ncl (o_subprotocols o);
+  ok_fresh_key : ncl fresh_key;
+  ok_header :
+    match o_header o with
+    | HNone => True
+    | HList l => Forall (fun x => ncl x /\ parse_header_line x <> None) l
+    | HDict d => Forall (fun kv => match snd kv with
+                                   | Some v => is_token (fst kv) = true /\ ncl v
+                                   | None => True
+                                   end) d
+    end
+}.
+
+(* header names *)
+Definition N_UPGRADE := [85; 112; 103; 114; 97; 100; 101].                  (* "Upgrade" *)
+Definition N_HOST := [72; 111; 115; 116].                                    (* "Host" *)
+Definition N_ORIGIN := [79; 114; 105; 103; 105; 110].                        (* "Origin" *)
+Definition N_CONN := [67; 111; 110; 110; 101; 99; 116; 105; 111; 110].       (* "Connection" *)
+Definition N_PROTO := [83; 101; 99; 45; 87; 101; 98; 83; 111; 99; 107; 101; 116; 45; 80; 114; 111; 116; 111; 99; 111; 108]. (* "Sec-WebSocket-Protocol" *)
+Definition N_COOKIE := [67; 111; 111; 107; 105; 101].                        (* "Cookie" *)
+Definition N_KEY := S_KEY.                                                   (* "Sec-WebSocket-Key" *)
+Definition N_VERSION := S_VERSION.                                           (* "Sec-WebSocket-Version" *)
+Definition V_13 := [49; 51].                                                 (* "13" *)
+Definition V_UPGRADE := [85; 112; 103; 114; 97; 100; 101].                   (* "Upgrade" *)
+
+Lemma S_UPGRADE_WS_eq : S_UPGRADE_WS = N_UPGRADE ++ S_COLON_SP ++ S_websocket. Proof. reflexivity. Qed.
+Lemma S_HOST_eq : S_HOST = N_HOST ++ S_COLON_SP. Proof. reflexivity. Qed.
+Lemma S_ORIGIN_eq : S_ORIGIN = N_ORIGIN ++ S_COLON_SP. Proof. reflexivity. Qed.
+Lemma S_CONN_eq : S_CONN = N_CONN ++ S_COLON_SP. Proof. reflexivity. Qed.
+Lemma S_PROTO_eq : S_PROTO = N_PROTO ++ S_COLON_SP. Proof. reflexivity. Qed.
+Lemma S_COOKIE_eq : S_COOKIE = N_COOKIE ++ S_COLON_SP. Proof. reflexivity. Qed.
+
+Lemma parse_pref S N v : S = N ++ S_COLON_SP -> is_token N = true ->
+  parse_header_line (S ++ v) = Some (N, strip v).
+Proof. intros -> H. rewrite <- app_assoc. apply parse_nv. exact H. Qed.
+
+(* ---- the parsed header list, piece by piece ---- *)
+Definition parse_opt (l : str) : list (str * str) :=
+  match parse_header_line l with Some kv => [kv] | None => [] end.
+Definition custom_hs (h : hdropt) : list (str * str) := flat_map parse_opt (custom_lines h).
+
+Definition header_hs (scheme host : str) (port : Z) (o : hsopts) (fresh_key server_cookie : str)
+    : list (str * str) :=
+  [(N_UPGRADE, S_websocket)] ++ [(N_HOST, strip (host_val host port o))]
+  ++ map (fun v => (N_ORIGIN, strip v)) (origin_vals scheme host port o)
+  ++ (if own_key o then [(N_KEY, strip fresh_key)] else [])
+  ++ (if own_version o then [(N_VERSION, V_13)] else [])
+  ++ [(N_CONN, strip (conn_val o))]
+  ++ map (fun v => (N_PROTO, strip v)) (proto_vals o)
+  ++ custom_hs (o_header o)
+  ++ map (fun v => (N_COOKIE, strip v)) (cookie_vals server_cookie o).
+
+Lemma parse_lines_map S N vals : S = N ++ S_COLON_SP -> is_token N = true ->
+  parse_header_lines (map (app S) vals) = Some (map (fun v => (N, strip v)) vals).
+Proof.
+  intros HS HN. induction vals as [|v vals IH]; [reflexivity|].
+  cbn [map parse_header_lines]. rewrite (parse_pref S N v HS HN), IH. reflexivity.
+Qed.
+Lemma ncl_map S vals : ncl S -> Forall ncl vals -> Forall ncl (map (app S) vals).
+Proof.
+  intros HS HF. induction HF as [|v vals Hv _ IH]; [constructor|].
+  cbn [map]. constructor; [apply ncl_app; assumption|exact IH].
+Qed.
+
+Lemma parse_custom h :
+  match h with
+  | HNone => True
+  | HList l => Forall (fun x => ncl x /\ parse_header_line x <> None) l
+  | HDict d => Forall (fun kv => match snd kv with
+                                 | Some v => is_token (fst kv) = true /\ ncl v
+                                 | None => True
+                                 end) d
+  end ->
+  parse_header_lines (custom_lines h) = Some (custom_hs h) /\ Forall ncl (custom_lines h).
+Proof.
+  unfold custom_hs. destruct h as [|l|d]; cbn [custom_lines]; intros H.
+  - split; [reflexivity|constructor].
+  - induction H as [|x l [Hx Hp] _ [IH1 IH2]]; [split; [reflexivity|constructor]|].
+    split; [|constructor; assumption].
+    cbn [parse_header_lines flat_map]. unfold parse_opt at 1.
+    destruct (parse_header_line x) as [kv|]; [|congruence]. rewrite IH1. reflexivity.
+  - induction H as [|[k [v|]] d Hkv _ [IH1 IH2]]; [split; [reflexivity|constructor]| |];
+      cbn [flat_map snd fst app] in *.
+    + destruct Hkv as [Hk Hv]. split.
+      * cbn [parse_header_lines]. unfold parse_opt at 1. rewrite (parse_nv k v Hk), IH1. reflexivity.
+      * constructor; [|exact IH2]. apply ncl_app; [apply token_ncl; exact Hk|].
+        apply ncl_app; [reflexivity|exact Hv].
+    + split; assumption.
+Qed.
+
+(* None-valued dict entries are skipped; the others appear in order as (name, stripped value) *)
+Theorem custom_dict_headers d :
+  Forall (fun kv => match snd kv with
+                    | Some v => is_token (fst kv) = true /\ ncl v
+                    | None => True
+                    end) d ->
+  custom_hs (HDict d) =
+  flat_map (fun kv => match snd kv with Some v => [(fst kv, strip v)] | None => [] end) d.
+Proof.
+  unfold custom_hs. cbn [custom_lines].
+  induction 1 as [|[k [v|]] d Hkv _ IH]; [reflexivity| |]; cbn [flat_map snd fst app] in *.
+  - destruct Hkv as [Hk Hv]. unfold parse_opt at 1. rewrite (parse_nv k v Hk), IH. reflexivity.
+  - exact IH.
+Qed.
+
+Lemma pack_hostname_ncl host : ncl host -> ncl (pack_hostname host).
+Proof.
+  intros H. unfold pack_hostname. destruct (contains_char 58 host); [|exact H].
+  apply ncl_app; [reflexivity|]. apply ncl_app; [exact H|reflexivity].
+Qed.
+Lemma hostport_ncl host port : ncl host -> ncl (hostport host port).
+Proof.
+  intros H. unfold hostport. destruct (host_port_omitted port).
+  - apply pack_hostname_ncl; exact H.
+  - apply ncl_app; [apply pack_hostname_ncl; exact H|]. apply ncl_app; [reflexivity|apply str_of_Z_ncl].
+Qed.
+
+Lemma opt_get_ncl (oo : option str) : (forall x, oo = Some x -> ncl x) -> ncl (opt_get oo).
+Proof. destruct oo as [x|]; intros H; [apply H; reflexivity|reflexivity]. Qed.
+
+Lemma header_lines_parse resource scheme host port o fk sc :
+  opts_ok resource host o fk sc ->
+  parse_header_lines (header_lines scheme host port o fk sc) = Some (header_hs scheme host port o fk sc)
+  /\ Forall ncl (header_lines scheme host port o fk sc).
+Proof.
+  intros OK. destruct (parse_custom (o_header o) (ok_header _ _ _ _ _ OK)) as [PC NC].
+  pose proof (hostport_ncl host port (ok_host _ _ _ _ _ OK)) as Hhp.
+  unfold header_lines, header_hs. rewrite VERSION_str. split.
+  - repeat apply parse_lines_app.
+    + reflexivity.
+    + cbn [parse_header_lines]. rewrite (parse_pref S_HOST N_HOST _ S_HOST_eq eq_refl). reflexivity.
+    + apply parse_lines_map; reflexivity.
+    + destruct (own_key o); [|reflexivity]. cbn [parse_header_lines].
+      rewrite (parse_nv S_KEY fk eq_refl). reflexivity.
+    + destruct (own_version o); [|reflexivity]. reflexivity.
+    + cbn [parse_header_lines]. rewrite (parse_pref S_CONN N_CONN _ S_CONN_eq eq_refl). reflexivity.
+    + apply parse_lines_map; reflexivity.
+    + exact PC.
+    + apply parse_lines_map; reflexivity.
+  - repeat (apply Forall_app; split).
+    + repeat constructor.
+    + repeat constructor. apply ncl_app; [reflexivity|]. unfold host_val.
+      destruct (opt_truthy (o_host o)); [|exact Hhp]. apply opt_get_ncl, (ok_o_host _ _ _ _ _ OK).
+    + apply ncl_map; [reflexivity|]. unfold origin_vals.
+      destruct (o_suppress_origin o); [constructor|].
+      destruct (o_origin o) as [[og|]|] eqn:Eo.
+      * repeat constructor. apply (ok_origin _ _ _ _ _ OK). exact Eo.
+      * destruct (str_eqb scheme S_WSS); repeat constructor; apply ncl_app; (reflexivity || exact Hhp).
+      * destruct (str_eqb scheme S_WSS); repeat constructor; apply ncl_app; (reflexivity || exact Hhp).
+    + destruct (own_key o); repeat constructor.
+      apply ncl_app; [reflexivity|]. apply ncl_app; [reflexivity|apply (ok_fresh_key _ _ _ _ _ OK)].
+    + destruct (own_version o); repeat constructor.
+    + repeat constructor. apply ncl_app; [reflexivity|]. unfold conn_val.
+      destruct (opt_truthy (o_connection o)); [|reflexivity].
+      apply opt_get_ncl, (ok_connection _ _ _ _ _ OK).
+    + apply ncl_map; [reflexivity|]. unfold proto_vals.
+      pose proof (ok_subprotocols _ _ _ _ _ OK) as Hs.
+      destruct (o_subprotocols o) as [|s0 r]; [constructor|].
+      repeat constructor. apply ncl_join; [reflexivity|exact Hs].
+    + exact NC.
+    + apply ncl_map; [reflexivity|]. unfold cookie_vals.
+      assert (Hc : ncl (cookie_val sc o)).
+      { unfold cookie_val. apply ncl_join; [reflexivity|].
+        pose proof (ok_server_cookie _ _ _ _ _ OK) as H1.
+        pose proof (opt_get_ncl _ (ok_cookie _ _ _ _ _ OK)) as H2.
+        cbn [filter]. destruct (negb (Nat.eqb (length sc) 0)), (negb (Nat.eqb (length (opt_get (o_cookie o))) 0));
+          repeat constructor; assumption. }
+      destruct (cookie_val sc o); repeat constructor. exact Hc.
+Qed.
+
+(* the request bytes parse as an HTTP/1.1 GET request for [resource] with exactly the headers [header_hs] *)
+Theorem request_parse : forall resource scheme host port o fresh_key server_cookie lines key,
+  get_handshake_headers resource scheme host port o fresh_key server_cookie = Ok (lines, key) ->
+  opts_ok resource host o fresh_key server_cookie ->
+  parse_request (request_bytes lines)
+  = Some (resource, header_hs scheme host port o fresh_key server_cookie).
+Proof.
+  intros resource scheme host port o fk sc lines key Hg OK.
+  apply ghh_shape in Hg. destruct Hg as [-> _].
+  destruct (header_lines_parse resource scheme host port o fk sc OK) as [HP HN].
+  unfold request_bytes. apply parse_request_intro.
+  - apply (ok_resource_nonempty _ _ _ _ _ OK).
+  - apply (ok_resource_nosp _ _ _ _ _ OK).
+  - apply (ok_resource _ _ _ _ _ OK).
+  - exact HN.
+  - exact HP.
+Qed.
+
+(* (2a) *)
+Theorem request_wellformed : forall resource scheme host port o fresh_key server_cookie lines key,
+  get_handshake_headers resource scheme host port o fresh_key server_cookie = Ok (lines, key) ->
+  opts_ok resource host o fresh_key server_cookie ->
+  exists hs, parse_request (request_bytes lines) = Some (resource, hs).
+Proof. intros. eexists. eapply request_parse; eassumption. Qed.
+
+(* ---- (2b) the individual headers ---- *)
+Definition ci_eqb (m n : str) : bool := str_eqb (lower m) (lower n).
+
+Lemma header_values_app n a b : header_values n (a ++ b) = header_values n a ++ header_values n b.
+Proof. unfold header_values. now rewrite filter_app, map_app. Qed.
+Lemma header_values_one n m v : header_values n [(m, v)] = if ci_eqb m n then [v] else [].
+Proof. unfold header_values, ci_eqb. cbn [filter fst]. destruct (str_eqb (lower m) (lower n)); reflexivity. Qed.
+Lemma header_values_map n m (f : str -> str) vals :
+  header_values n (map (fun v => (m, f v)) vals) = if ci_eqb m n then map f vals else [].
+Proof.
+  unfold header_values, ci_eqb. induction vals as [|v vals IH]; cbn [map filter fst].
+  - destruct (str_eqb (lower m) (lower n)); reflexivity.
+  - destruct (str_eqb (lower m) (lower n)); cbn [map snd]; [now rewrite IH|exact IH].
+Qed.
+Lemma header_values_if n (c : bool) kv :
+  header_values n (if c then [kv] else []) = if c then header_values n [kv] else [].
+Proof. destruct c; reflexivity. Qed.
+
+Lemma if_same {A} (c : bool) (x : A) : (if c then x else x) = x.
+Proof. destruct c; reflexivity. Qed.
+
+Ltac ci_norm :=
+  repeat match goal with
+  | |- context [ci_eqb ?a ?b] =>
+      let v := eval vm_compute in (ci_eqb a b) in change (ci_eqb a b) with v
+  end; cbv beta iota.
+
+(* header_values of the explicit header list, with the name comparisons evaluated *)
+Ltac hv_explicit :=
+  unfold header_hs;
+  rewrite !header_values_app, !header_values_if, !header_values_one, !header_values_map;
+  ci_norm; rewrite ?if_same.
+
+Lemma host_val_default host port o :
+  opt_truthy (o_host o) = false -> host_val host port o = host_header host port.
+Proof.
+  intros H. unfold host_val, hostport, host_header. rewrite H, host_port_omitted_eq. reflexivity.
+Qed.
+Lemma host_val_override host port o h :
+  o_host o = Some h -> h <> [] -> host_val host port o = h.
+Proof. intros E Hne. unfold host_val. rewrite E. destruct h; [congruence|reflexivity]. Qed.
+
+Lemma hostport_eq host port : hostport host port = host_header host port.
+Proof. unfold hostport, host_header. rewrite host_port_omitted_eq. reflexivity. Qed.
+
+Lemma own_key_no_header o : hdr_has S_KEY (o_header o) = false -> own_key o = true.
+Proof. unfold own_key. intros ->. apply orb_true_r. Qed.
+Lemma own_version_no_header o : hdr_has S_VERSION (o_header o) = false -> own_version o = true.
+Proof. unfold own_version. intros ->. apply orb_true_r. Qed.
+
+Section Headers.
+  Variables (resource scheme host : str) (port : Z) (o : hsopts) (fresh_key server_cookie : str).
+  Variables (lines : list str) (key : str) (target : str) (hs : list (str * str)).
+  Hypothesis Hg : get_handshake_headers resource scheme host port o fresh_key server_cookie = Ok (lines, key).
+  Hypothesis OK : opts_ok resource host o fresh_key server_cookie.
+  Hypothesis Hp : parse_request (request_bytes lines) = Some (target, hs).
+
+  (* the caller's custom headers (header= list or dict) do not mention [name] (case-insensitively) *)
+  Definition custom_free (name : str) : Prop := header_values name (custom_hs (o_header o)) = [].
+
+  (* The complete header list, in order: Upgrade, Host, [Origin], [Key], [Version], Connection,
+     [Protocol], custom headers, [Cookie]. *)
+  Theorem request_headers_explicit :
+    target = resource /\
+    hs = [(N_UPGRADE, S_websocket)] ++ [(N_HOST, strip (host_val host port o))]
+         ++ map (fun v => (N_ORIGIN, strip v)) (origin_vals scheme host port o)
+         ++ (if own_key o then [(N_KEY, strip fresh_key)] else [])
+         ++ (if own_version o then [(N_VERSION, V_13)] else [])
+         ++ [(N_CONN, strip (conn_val o))]
+         ++ map (fun v => (N_PROTO, strip v)) (proto_vals o)
+         ++ custom_hs (o_header o)
+         ++ map (fun v => (N_COOKIE, strip v)) (cookie_vals server_cookie o).
+  Proof.
+    rewrite (request_parse _ _ _ _ _ _ _ _ _ Hg OK) in Hp. inversion Hp; subst. split; reflexivity.
+  Qed.
+
+  Lemma hs_eq : hs = header_hs scheme host port o fresh_key server_cookie.
+  Proof. exact (proj2 request_headers_explicit). Qed.
+
+  Theorem request_target : target = resource.
+  Proof. exact (proj1 request_headers_explicit). Qed.
+
+  Theorem key_used_for_validation : key = key_used o fresh_key.
+  Proof. exact (proj2 (ghh_shape _ _ _ _ _ _ _ _ _ Hg)). Qed.
+
+  Theorem upgrade_header : custom_free N_UPGRADE -> header_values N_UPGRADE hs = [S_websocket].
+  Proof. intros Hc. rewrite hs_eq. hv_explicit. rewrite Hc. reflexivity. Qed.
+
+  Theorem host_header_value : custom_free N_HOST ->
+    header_values N_HOST hs = [strip (host_val host port o)].
+  Proof. intros Hc. rewrite hs_eq. hv_explicit. rewrite Hc. reflexivity. Qed.
+
+  Corollary host_header_default : custom_free N_HOST -> opt_truthy (o_host o) = false ->
+    header_values N_HOST hs = [strip (host_header host port)].
+  Proof. intros Hc H. rewrite host_header_value by exact Hc. now rewrite host_val_default. Qed.
+
+  Corollary host_header_override : forall h, custom_free N_HOST -> o_host o = Some h -> h <> [] ->
+    header_values N_HOST hs = [strip h].
+  Proof. intros h Hc E Hne. rewrite host_header_value by exact Hc. now rewrite (host_val_override _ _ _ h). Qed.
+
+  Theorem version_header : custom_free N_VERSION -> own_version o = true ->
+    header_values N_VERSION hs = [V_13].
+  Proof. intros Hc Hv. rewrite hs_eq. hv_explicit. rewrite Hc, Hv. reflexivity. Qed.
+
+  Theorem key_header : custom_free N_KEY -> own_key o = true ->
+    header_values N_KEY hs = [strip fresh_key] /\ key = fresh_key.
+  Proof.
+    intros Hc Hk. split.
+    - rewrite hs_eq. hv_explicit. rewrite Hc, Hk. reflexivity.
+    - rewrite key_used_for_validation. unfold key_used. now rewrite Hk.
+  Qed.
+
+  Theorem connection_header : custom_free N_CONN ->
+    header_values N_CONN hs = [strip (conn_val o)].
+  Proof. intros Hc. rewrite hs_eq. hv_explicit. rewrite Hc. reflexivity. Qed.
+
+  Corollary connection_header_default : custom_free N_CONN -> opt_truthy (o_connection o) = false ->
+    header_values N_CONN hs = [V_UPGRADE].
+  Proof. intros Hc H. rewrite connection_header by exact Hc. unfold conn_val. now rewrite H. Qed.
+
+  Corollary connection_header_override : forall c, custom_free N_CONN -> o_connection o = Some c -> c <> [] ->
+    header_values N_CONN hs = [strip c].
+  Proof.
+    intros c Hc E Hne. rewrite connection_header by exact Hc. unfold conn_val. rewrite E.
+    destruct c; [congruence|reflexivity].
+  Qed.
+
+  Theorem origin_header : custom_free N_ORIGIN ->
+    header_values N_ORIGIN hs = map strip (origin_vals scheme host port o).
+  Proof. intros Hc. rewrite hs_eq. hv_explicit. rewrite Hc, app_nil_r. reflexivity. Qed.
+
+  Corollary origin_header_suppressed : custom_free N_ORIGIN -> o_suppress_origin o = true ->
+    header_values N_ORIGIN hs = [].
+  Proof. intros Hc H. rewrite origin_header by exact Hc. unfold origin_vals. now rewrite H. Qed.
+
+  Corollary origin_header_given : forall og, custom_free N_ORIGIN -> o_suppress_origin o = false ->
+    o_origin o = Some (Some og) -> header_values N_ORIGIN hs = [strip og].
+  Proof. intros og Hc H E. rewrite origin_header by exact Hc. unfold origin_vals. now rewrite H, E. Qed.
+
+  Corollary origin_header_default : custom_free N_ORIGIN -> o_suppress_origin o = false ->
+    (o_origin o = None \/ o_origin o = Some None) ->
+    header_values N_ORIGIN hs =
+    [strip ((if str_eqb scheme S_WSS then S_HTTPS else S_HTTP) ++ host_header host port)].
+  Proof.
+    intros Hc H E. rewrite origin_header by exact Hc. unfold origin_vals. rewrite H, hostport_eq.
+    destruct E as [-> | ->]; destruct (str_eqb scheme S_WSS); reflexivity.
+  Qed.
+
+  Theorem protocol_header : custom_free N_PROTO ->
+    header_values N_PROTO hs = map strip (proto_vals o).
+  Proof. intros Hc. rewrite hs_eq. hv_explicit. rewrite Hc, app_nil_r. reflexivity. Qed.
+
+  Corollary protocol_header_none : custom_free N_PROTO -> o_subprotocols o = [] ->
+    header_values N_PROTO hs = [].
+  Proof. intros Hc H. rewrite protocol_header by exact Hc. unfold proto_vals. now rewrite H. Qed.
+
+  Corollary protocol_header_some : custom_free N_PROTO -> o_subprotocols o <> [] ->
+    header_values N_PROTO hs = [strip (join [44] (o_subprotocols o))].
+  Proof.
+    intros Hc H. rewrite protocol_header by exact Hc. unfold proto_vals.
+    destruct (o_subprotocols o); [congruence|reflexivity].
+  Qed.
+
+  Theorem cookie_header : custom_free N_COOKIE ->
+    header_values N_COOKIE hs = map strip (cookie_vals server_cookie o).
+  Proof. intros Hc. rewrite hs_eq. hv_explicit. rewrite Hc. reflexivity. Qed.
+
+  (* absent when both cookies are empty *)
+  Corollary cookie_header_absent : custom_free N_COOKIE ->
+    server_cookie = [] -> opt_get (o_cookie o) = [] -> header_values N_COOKIE hs = [].
+  Proof.
+    intros Hc H1 H2. rewrite cookie_header by exact Hc. unfold cookie_vals, cookie_val.
+    rewrite H1, H2. reflexivity.
+  Qed.
+
+  (* present (once) otherwise, with the "; "-join of the non-empty ones as its value ... *)
+  Corollary cookie_header_present : custom_free N_COOKIE ->
+    (server_cookie <> [] \/ opt_get (o_cookie o) <> []) ->
+    header_values N_COOKIE hs =
+    [strip (join [59; 32] (filter (fun c => negb (Nat.eqb (length c) 0)) [server_cookie; opt_get (o_cookie o)]))].
+  Proof.
+    intros Hc H. rewrite cookie_header by exact Hc. unfold cookie_vals, cookie_val.
+    destruct server_cookie as [|a r], (opt_get (o_cookie o)) as [|b r']; cbn [filter length Nat.eqb negb join app];
+      try reflexivity. destruct H; congruence.
+  Qed.
+
+  (* ... and it is the last header of the request *)
+  Theorem cookie_header_last :
+    (server_cookie <> [] \/ opt_get (o_cookie o) <> []) ->
+    exists pre, hs = pre ++ [(N_COOKIE, strip (cookie_val server_cookie o))].
+  Proof.
+    intros H. rewrite hs_eq. unfold header_hs.
+    assert (E : cookie_vals server_cookie o = [cookie_val server_cookie o]).
+    { unfold cookie_vals, cookie_val.
+      destruct server_cookie as [|a r], (opt_get (o_cookie o)) as [|b r']; cbn [filter length Nat.eqb negb join app];
+        try reflexivity. destruct H; congruence. }
+    rewrite E. cbn [map]. rewrite !app_assoc. eexists. reflexivity.
+  Qed.
+
+  (* custom headers sit, in the caller's order, between the protocol line and the cookie *)
+  Theorem custom_headers_position :
+    exists pre, hs = pre ++ map (fun v => (N_PROTO, strip v)) (proto_vals o)
+                         ++ custom_hs (o_header o)
+                         ++ map (fun v => (N_COOKIE, strip v)) (cookie_vals server_cookie o)
+                /\ Forall (fun kv => In (fst kv) [N_UPGRADE; N_HOST; N_ORIGIN; N_KEY; N_VERSION; N_CONN]) pre.
+  Proof.
+    rewrite hs_eq. unfold header_hs.
+    exists ([(N_UPGRADE, S_websocket)] ++ [(N_HOST, strip (host_val host port o))]
+            ++ map (fun v => (N_ORIGIN, strip v)) (origin_vals scheme host port o)
+            ++ (if own_key o then [(N_KEY, strip fresh_key)] else [])
+            ++ (if own_version o then [(N_VERSION, V_13)] else [])
+            ++ [(N_CONN, strip (conn_val o))]).
+    split; [rewrite <- !app_assoc; reflexivity|].
+    assert (one : forall kv : str * str, In (fst kv) [N_UPGRADE; N_HOST; N_ORIGIN; N_KEY; N_VERSION; N_CONN] ->
+                  Forall (fun kv : str * str => In (fst kv) [N_UPGRADE; N_HOST; N_ORIGIN; N_KEY; N_VERSION; N_CONN]) [kv])
+      by (intros; apply Forall_cons; [assumption|apply Forall_nil]).
+    repeat (apply Forall_app; split).
+    - apply one. cbn [In fst]; tauto.
+    - apply one. cbn [In fst]; tauto.
+    - apply Forall_forall. intros kv Hin. apply in_map_iff in Hin. destruct Hin as [v [<- _]].
+      cbn [In fst]; tauto.
+    - destruct (own_key o); [apply one; cbn [In fst]; tauto|constructor].
+    - destruct (own_version o); [apply one; cbn [In fst]; tauto|constructor].
+    - apply one. cbn [In fst]; tauto.
+  Qed.
+End Headers.
+
+(* ---- (2c) the key: base64 of the 16 random bytes ---- *)
+Lemma b64_char_facts : forall i, 0 <= i < 64 ->
+  b64_val (b64_char i) = Some i /\ b64_char i <> 61 /\ is_space (b64_char i) = false.
+Proof.
+  assert (S : forallb (fun i => match b64_val (b64_char i) with
+                                | Some j => (j =? i) && negb (b64_char i =? 61) && negb (is_space (b64_char i))
+                                | None => false
+                                end) (zrange 64 0) = true) by (vm_compute; reflexivity).
+  intros i Hi. pose proof (forall_range _ _ _ S i ltac:(lia)) as H. cbv beta in H.
+  destruct (b64_val (b64_char i)) as [j|]; [|discriminate H].
+  apply andb_true_iff in H. destruct H as [H H3]. apply andb_true_iff in H. destruct H as [H1 H2].
+  apply Z.eqb_eq in H1. apply negb_true_iff in H2, H3. apply Z.eqb_neq in H2. subst j. auto.
+Qed.
+
+Section B64.
+  Opaque b64_char b64_val.
+
+  Lemma b64_roundtrip_aux : forall n l, (length l <= n)%nat -> bytes_ok l ->
+    b64_decode (b64_encode l) = Some l.
+  Proof.
+    induction n as [|n IH]; intros l Hl Hok.
+    - destruct l; [reflexivity|cbn [length] in Hl; lia].
+    - destruct l as [|a [|b [|c r]]]; [reflexivity| | |].
+      + inversion Hok as [|? ? Ha _]; subst. unfold byte_ok in Ha.
+        assert (R1 : 0 <= a / 4 < 64) by (Z.div_mod_to_equations; lia).
+        assert (R2 : 0 <= a mod 4 * 16 < 64) by (Z.div_mod_to_equations; lia).
+        cbn [b64_encode b64_decode].
+        rewrite (proj1 (b64_char_facts _ R1)), (proj1 (b64_char_facts _ R2)).
+        change (61 =? 61) with true. cbv beta iota. cbn [andb]. cbv beta iota.
+        f_equal. f_equal. Z.div_mod_to_equations; lia.
+      + inversion Hok as [|? ? Ha Hok1]; subst. inversion Hok1 as [|? ? Hb _]; subst.
+        unfold byte_ok in Ha, Hb.
+        assert (R1 : 0 <= a / 4 < 64) by (Z.div_mod_to_equations; lia).
+        assert (R2 : 0 <= a mod 4 * 16 + b / 16 < 64) by (Z.div_mod_to_equations; lia).
+        assert (R3 : 0 <= b mod 16 * 4 < 64) by (Z.div_mod_to_equations; lia).
+        cbn [b64_encode b64_decode].
+        rewrite (proj1 (b64_char_facts _ R1)), (proj1 (b64_char_facts _ R2)), (proj1 (b64_char_facts _ R3)).
+        rewrite (proj2 (Z.eqb_neq _ _) (proj1 (proj2 (b64_char_facts _ R3)))).
+        change (61 =? 61) with true. cbn [andb]. cbv beta iota.
+        f_equal. f_equal; [|f_equal]; Z.div_mod_to_equations; lia.
+      + inversion Hok as [|? ? Ha Hok1]; subst. inversion Hok1 as [|? ? Hb Hok2]; subst.
+        inversion Hok2 as [|? ? Hc Hok3]; subst.
+        unfold byte_ok in Ha, Hb, Hc.
+        assert (R1 : 0 <= a / 4 < 64) by (Z.div_mod_to_equations; lia).
+        assert (R2 : 0 <= a mod 4 * 16 + b / 16 < 64) by (Z.div_mod_to_equations; lia).
+        assert (R3 : 0 <= b mod 16 * 4 + c / 64 < 64) by (Z.div_mod_to_equations; lia).
+        assert (R4 : 0 <= c mod 64 < 64) by (Z.div_mod_to_equations; lia).
+        cbn [b64_encode b64_decode].
+        rewrite (proj1 (b64_char_facts _ R1)), (proj1 (b64_char_facts _ R2)),
+                (proj1 (b64_char_facts _ R3)), (proj1 (b64_char_facts _ R4)).
+        rewrite (proj2 (Z.eqb_neq _ _) (proj1 (proj2 (b64_char_facts _ R3)))).
+        rewrite (proj2 (Z.eqb_neq _ _) (proj1 (proj2 (b64_char_facts _ R4)))).
+        cbn [andb]. cbv beta iota.
+        rewrite (IH r) by (cbn [length] in Hl; lia || exact Hok3).
+        f_equal. f_equal; [|f_equal; [|f_equal]]; Z.div_mod_to_equations; lia.
+  Qed.
+
+  Theorem b64_roundtrip : forall l, bytes_ok l -> b64_decode (b64_encode l) = Some l.
+  Proof. intros l H. apply (b64_roundtrip_aux (length l)); [lia|exact H]. Qed.
+
+  (* no character of a base64 text is blank *)
+  Lemma b64_no_space_aux : forall n l, (length l <= n)%nat -> bytes_ok l ->
+    Forall (fun ch => is_space ch = false) (b64_encode l).
+  Proof.
+    induction n as [|n IH]; intros l Hl Hok.
+    - destruct l; [constructor|cbn [length] in Hl; lia].
+    - destruct l as [|a [|b [|c r]]]; [constructor| | |].
+      + inversion Hok as [|? ? Ha _]; subst. unfold byte_ok in Ha.
+        assert (R1 : 0 <= a / 4 < 64) by (Z.div_mod_to_equations; lia).
+        assert (R2 : 0 <= a mod 4 * 16 < 64) by (Z.div_mod_to_equations; lia).
+        cbn [b64_encode]. repeat apply Forall_cons; try apply Forall_nil; try reflexivity;
+          apply b64_char_facts; assumption.
+      + inversion Hok as [|? ? Ha Hok1]; subst. inversion Hok1 as [|? ? Hb _]; subst.
+        unfold byte_ok in Ha, Hb.
+        assert (R1 : 0 <= a / 4 < 64) by (Z.div_mod_to_equations; lia).
+        assert (R2 : 0 <= a mod 4 * 16 + b / 16 < 64) by (Z.div_mod_to_equations; lia).
+        assert (R3 : 0 <= b mod 16 * 4 < 64) by (Z.div_mod_to_equations; lia).
+        cbn [b64_encode]. repeat apply Forall_cons; try apply Forall_nil; try reflexivity;
+          apply b64_char_facts; assumption.
+      + inversion Hok as [|? ? Ha Hok1]; subst. inversion Hok1 as [|? ? Hb Hok2]; subst.
+        inversion Hok2 as [|? ? Hc Hok3]; subst.
+        unfold byte_ok in Ha, Hb, Hc.
+        assert (R1 : 0 <= a / 4 < 64) by (Z.div_mod_to_equations; lia).
+        assert (R2 : 0 <= a mod 4 * 16 + b / 16 < 64) by (Z.div_mod_to_equations; lia).
+        assert (R3 : 0 <= b mod 16 * 4 + c / 64 < 64) by (Z.div_mod_to_equations; lia).
+        assert (R4 : 0 <= c mod 64 < 64) by (Z.div_mod_to_equations; lia).
+        cbn [b64_encode]. do 4 (apply Forall_cons; [apply b64_char_facts; assumption|]).
+        apply IH; [cbn [length] in Hl; lia|exact Hok3].
+  Qed.
+  Transparent b64_char b64_val.
+End B64.
+
+Theorem key_is_fresh_b64 : forall draw, length draw = 16%nat -> bytes_ok draw ->
+  length (b64_encode draw) = 24%nat /\ b64_decode (b64_encode draw) = Some draw.
+Proof.
+  intros draw Hlen Hok. split; [|apply b64_roundtrip; exact Hok].
+  do 16 (destruct draw as [|? draw]; [discriminate Hlen|]).
+  destruct draw; [reflexivity|discriminate Hlen].
+Qed.
+
+Lemma forall_last {A} (P : A -> Prop) d : forall s, s <> [] -> Forall P s -> P (last s d).
+Proof.
+  induction s as [|x s IH]; intros Hne HF; [congruence|].
+  inversion HF as [|? ? Hx Hs]; subst. destruct s as [|y s]; [exact Hx|].
+  change (last (x :: y :: s) d) with (last (y :: s) d). apply IH; [discriminate|exact Hs].
+Qed.
+
+(* a base64 text is unchanged by str.strip(): the Sec-WebSocket-Key header carries the key itself *)
+Theorem strip_b64 : forall l, bytes_ok l -> strip (b64_encode l) = b64_encode l.
+Proof.
+  intros l Hok. apply strip_trimmed.
+  pose proof (b64_no_space_aux (length l) l (le_n _) Hok) as HF.
+  destruct (b64_encode l) as [|c r] eqn:E; [reflexivity|]. unfold trimmedb.
+  assert (H1 : is_space c = false) by (inversion HF; assumption).
+  assert (H2 : is_space (last (c :: r) 0) = false)
+    by (apply (forall_last (fun ch => is_space ch = false)); [discriminate|exact HF]).
+  now rewrite H1, H2.
+Qed.
+
+Corollary key_header_b64 : forall resource scheme host port o draw server_cookie lines key target hs,
+  get_handshake_headers resource scheme host port o (b64_encode draw) server_cookie = Ok (lines, key) ->
+  opts_ok resource host o (b64_encode draw) server_cookie ->
+  parse_request (request_bytes lines) = Some (target, hs) ->
+  bytes_ok draw -> custom_free o N_KEY -> own_key o = true ->
+  header_values N_KEY hs = [b64_encode draw] /\ key = b64_encode draw.
+Proof.
+  intros resource scheme host port o draw sc lines key target hs Hg OK Hp Hd Hc Hk.
+  destruct (key_header _ _ _ _ _ _ _ _ _ _ _ Hg OK Hp Hc Hk) as [H1 H2].
+  rewrite strip_b64 in H1 by exact Hd. split; assumption.
+Qed.
+
+(* ---- values without surrounding blanks: the parsed value is the value itself ---- *)
+Corollary host_header_default_trimmed :
+  forall resource scheme host port o fresh_key server_cookie lines key target hs,
+  get_handshake_headers resource scheme host port o fresh_key server_cookie = Ok (lines, key) ->
+  opts_ok resource host o fresh_key server_cookie ->
+  parse_request (request_bytes lines) = Some (target, hs) ->
+  custom_free o N_HOST -> opt_truthy (o_host o) = false ->
+  trimmedb (host_header host port) = true ->
+  header_values N_HOST hs = [host_header host port].
+Proof.
+  intros resource scheme host port o fk sc lines key target hs Hg OK Hp Hc Hh Ht.
+  rewrite (host_header_default _ _ _ _ _ _ _ _ _ _ _ Hg OK Hp Hc Hh).
+  now rewrite strip_trimmed.
+Qed.
+
+(* ---- with a header LIST, well-formed options always get the library's own key and version ---- *)
+Lemma str_eqb_eq : forall a b, str_eqb a b = true -> a = b.
+Proof.
+  induction a as [|x a IH]; intros [|y b] H; cbn [str_eqb] in H; try discriminate; [reflexivity|].
+  apply andb_true_iff in H. destruct H as [H1 H2]. apply Z.eqb_eq in H1. subst. f_equal. now apply IH.
+Qed.
+
+Lemma header_list_own_key resource host o fk sc l :
+  opts_ok resource host o fk sc -> o_header o = HList l -> own_key o = true /\ own_version o = true.
+Proof.
+  intros OK E. pose proof (ok_header _ _ _ _ _ OK) as H. rewrite E in H.
+  unfold own_key, own_version. rewrite E. cbn [hdr_has].
+  assert (M : forall name, parse_header_line name = None -> mem_str name l = false).
+  { intros name Hn. destruct (mem_str name l) eqn:M; [|reflexivity].
+    unfold mem_str in M. apply existsb_exists in M. destruct M as [x [Hin Hx]].
+    apply str_eqb_eq in Hx. subst x. rewrite Forall_forall in H. destruct (H _ Hin) as [_ Hp].
+    congruence. }
+  rewrite !M by reflexivity. split; apply orb_true_r.
+Qed.
+
+(* ---- the hypotheses are needed: concrete inputs ---- *)
+(* header={"sec-websocket-key": "A"} : the membership test is case-sensitive, header names are not:
+   the request carries TWO Sec-WebSocket-Key headers (these options satisfy opts_ok) *)
+Definition cx_o_dupkey : hsopts :=
+  {| o_host := None; o_origin := None; o_suppress_origin := true; o_subprotocols := [];
+     o_cookie := None; o_header := HDict [(lower S_KEY, Some [65])]; o_connection := None |}.
+Example duplicate_key_header :
+  exists lines hs,
+    get_handshake_headers [47] [119; 115] [104] 80 cx_o_dupkey [75; 75] [] = Ok (lines, [75; 75]) /\
+    parse_request (request_bytes lines) = Some ([47], hs) /\
+    header_values N_KEY hs = [[75; 75]; [65]].
+Proof. do 2 eexists. split; [vm_compute; reflexivity|]. split; vm_compute; reflexivity. Qed.
+
+(* origin="a\r\nX: 1" : CR/LF in an option injects a header line (violates opts_ok) *)
+Definition cx_o_inject : hsopts :=
+  {| o_host := None; o_origin := Some (Some [97; 13; 10; 88; 58; 32; 49]); o_suppress_origin := false;
+     o_subprotocols := []; o_cookie := None; o_header := HNone; o_connection := None |}.
+Example crlf_injection :
+  exists lines hs,
+    get_handshake_headers [47] [119; 115] [104] 80 cx_o_inject [75; 75] [] = Ok (lines, [75; 75]) /\
+    parse_request (request_bytes lines) = Some ([47], hs) /\
+    header_values [88] hs = [[49]].
+Proof. do 2 eexists. split; [vm_compute; reflexivity|]. split; vm_compute; reflexivity. Qed.
+
+(* ================================================================================== *)
+Print Assumptions validate_sound.
+Print Assumptions validate_exact.
+Print Assumptions validate_complete_partial.
+Print Assumptions validate_complete_no_subprotocols.
+Print Assumptions validate_complete_counterexample.
+Print Assumptions handshake_ok_only_if.
+Print Assumptions handshake_redirect_is_not_ok.
+Print Assumptions handshake_writes_once.
+Print Assumptions handshake_reads_bounded.
+Print Assumptions split_crlf_join.
+Print Assumptions request_parse.
+Print Assumptions request_wellformed.
+Print Assumptions request_headers_explicit.
+Print Assumptions request_target.
+Print Assumptions key_used_for_validation.
+Print Assumptions upgrade_header.
+Print Assumptions host_header_value.
+Print Assumptions host_header_default.
+Print Assumptions host_header_override.
+Print Assumptions host_header_default_trimmed.
+Print Assumptions version_header.
+Print Assumptions key_header.
+Print Assumptions key_header_b64.
+Print Assumptions connection_header.
+Print Assumptions connection_header_default.
+Print Assumptions connection_header_override.
+Print Assumptions origin_header.
+Print Assumptions origin_header_suppressed.
+Print Assumptions origin_header_given.
+Print Assumptions origin_header_default.
+Print Assumptions protocol_header.
+Print Assumptions protocol_header_none.
+Print Assumptions protocol_header_some.
+Print Assumptions cookie_header.
+Print Assumptions cookie_header_absent.
+Print Assumptions cookie_header_present.
+Print Assumptions cookie_header_last.
+Print Assumptions custom_headers_position.
+Print Assumptions custom_dict_headers.
+Print Assumptions header_list_own_key.
+Print Assumptions b64_roundtrip.
+Print Assumptions strip_b64.
+Print Assumptions key_is_fresh_b64.
+Print Assumptions duplicate_key_header.
+Print Assumptions crlf_injection.
